@@ -4,7 +4,8 @@ from . import _cache
 ID = 'C05'
 MODULE = _cache.MODULE
 LEAN_SUBDIRS = _cache.LEAN_SUBDIRS
-THEOREMS = ['AiutiVerif.Cache.LTS.C05_no_lost_wakeup','AiutiVerif.Cache.LTS.C05_lock_holder_enabled','AiutiVerif.Cache.LTS.C05_waiter_wakeable','AiutiVerif.Cache.LTS.C05_publisher_enabled','AiutiVerif.Cache.LTS.C05_waits_on_owners_event','AiutiVerif.Cache.LTS.inv_step']
+THEOREMS = ['AiutiVerif.Cache.LTS.C05_never_stuck', 'AiutiVerif.Cache.LTS.C05_moves_make_progress',
+            'AiutiVerif.Cache.LTS.C05_no_lost_wakeup','AiutiVerif.Cache.LTS.C05_lock_holder_enabled','AiutiVerif.Cache.LTS.C05_waiter_wakeable','AiutiVerif.Cache.LTS.C05_publisher_enabled','AiutiVerif.Cache.LTS.C05_waits_on_owners_event','AiutiVerif.Cache.LTS.inv_step']
 ASSUMPTIONS = list(_cache.ASSUMPTIONS_COMMON)
 RULE = ('2..4 threads each running its own event loop with 1..3 callers over 1..2 keys; call delays and computation '
         'durations from {0, 1, 5, 70, 130} virtual seconds (zero-duration computations and the 60 s safety timer occur), '
